@@ -929,10 +929,11 @@ func (r *vfxRig) do1(q *vfxRequest, mayRetry bool) (*vfxResponse, error) {
 		}
 	}()
 	resp, rerr := vfxReadResponse(conn.br, q.Method)
-	if rerr == nil {
-		// stop a writer that is still pushing a body nobody wants
-		_ = conn.c.SetWriteDeadline(time.Now().Add(-time.Second))
-	}
+	// A response may arrive while the request body is still being written (the body was replaced
+	// or rejected). Like a real client the writer finishes its request: the mux drains the rest of
+	// the body after it has answered, and a client that stopped half-way while keeping the
+	// connection open would block that handler forever. If the server closes instead, the write
+	// fails and the writer ends; the connection deadline bounds everything.
 	wg.Wait()
 	if rerr != nil {
 		r.dropConn()
@@ -943,8 +944,6 @@ func (r *vfxRig) do1(q *vfxRequest, mayRetry bool) (*vfxResponse, error) {
 		r.dropConn()
 		return r.do1(q, false)
 	}
-	_ = conn.c.SetWriteDeadline(time.Time{})
-
 	reusable := werr == nil && resp.FramingErr == "" && !resp.Closed && q.Framing != "lying" &&
 		resp.Proto == "HTTP/1.1" && !vfxHasToken(resp.Get("Connection"), "close")
 	for _, kv := range q.Headers {
